@@ -392,6 +392,14 @@ def gen_cases(ctx):
         cases.append((gen_backpressure(rng), "back-pressure"))
     for _ in range(ctx.scale(8, 60)):
         cases.append((gen_backpressure(rng, slow=True), "back-pressure-slow-client"))
+    # a long backlog of answered-but-unsent replies when the close signal reaches the connection's writer: 17..31 calls on one
+    # WS connection whose handlers return in one step around the stop (the model's outcome set is too large to enumerate for
+    # these: they are judged by the oracle alone)
+    for k in ctx.scale([17, 24, 31], [17, 18, 20, 24, 28, 31]):
+        for variant in ctx.scale(["S p A", "A S"], ["S p A", "S A", "A S", "A p S"]):
+            for pre in ("", "B4 ", "P64 "):
+                cases.append(("%scw W %s %s %s Z" % (pre, " ".join(["s0"] * k), " ".join("a%d" % i for i in range(k)), variant), "long-backlog"))
+    cases.append(("P256 cW W %s %s q0 S p A p p g0 Z" % (" ".join(["s0"] * 20), " ".join("a%d" % i for i in range(20))), "long-backlog"))
     for _ in range(ctx.scale(6, 60)):
         for _try in range(50):
             t = gen_main(rng, parked=True)
